@@ -51,6 +51,9 @@ func c14Ops() []c14Op {
 			c14Op{kind: "AddAttr", typ: t, attr: j.Attr{Name: "x", Type: j.AttrTypeString}},
 			c14Op{kind: "AddAttr", typ: t, attr: j.Attr{Name: "", Type: j.AttrTypeString}},
 			c14Op{kind: "AddAttr", typ: t, attr: j.Attr{Name: "x", Type: j.AttrTypeInvalid}},
+			// a valid definition under a name that may be taken, differing from the first in kind and nullability:
+			// a refused duplicate must leave the stored definition as it was
+			c14Op{kind: "AddAttr", typ: t, attr: j.Attr{Name: "x", Type: j.AttrTypeInt64, Nullable: true}},
 			c14Op{kind: "AddAttr", typ: t, attr: j.Attr{Name: "y", Type: 99, Nullable: true}},
 			c14Op{kind: "AddAttr", typ: t, attr: j.Attr{Name: "y", Type: -1}},
 			c14Op{kind: "RemoveAttr", typ: t, name: "x"},
@@ -374,7 +377,7 @@ func init() {
 	sort.Strings(names)
 	Register(&Prop{
 		ID: "C14",
-		Rule: fmt.Sprintf("Engine B: breadth-first search over ALL histories (depth <= 6 quick / 8 thorough) of %d schema-edit operations (AddType/RemoveType over {a,b,c,\"\",ab,\" \",\"a \",unknown}; AddAttr with valid, empty-named, invalid-kind attributes; RemoveAttr (incl. by the name of a relationship); AddRel with valid, duplicate, empty-named, empty-target relationships, relationships given from the other side (FromType another type) and one-sided declarations naming an inverse; RemoveRel (incl. by the name of an attribute); AddTwoWayRel in normalised and non-normalised direction, within one type, with a missing type, taken names and an empty name on one side) on a real Schema, de-duplicated by a deep heap snapshot (type ORDER is part of the state, so first/middle/last removals are distinct). Oracle on every transition: no panic, error iff the list-of-types model says so, error => snapshot unchanged, Schema.Types == model, well-formedness invariant, HasType/GetType agree with the list. A state is non-trivial when it holds at least one type", len(c14Ops())),
+		Rule: fmt.Sprintf("Engine B: breadth-first search over ALL histories (depth <= 6 quick / 8 thorough) of %d schema-edit operations (AddType/RemoveType over {a,b,c,\"\",ab,\" \",\"a \",unknown}; AddAttr with valid, empty-named, invalid-kind attributes and a second valid definition (other kind, nullable) under the same name; RemoveAttr (incl. by the name of a relationship); AddRel with valid, duplicate, empty-named, empty-target relationships, relationships given from the other side (FromType another type) and one-sided declarations naming an inverse; RemoveRel (incl. by the name of an attribute); AddTwoWayRel in normalised and non-normalised direction, within one type, with a missing type, taken names and an empty name on one side) on a real Schema, de-duplicated by a deep heap snapshot (type ORDER is part of the state, so first/middle/last removals are distinct). Oracle on every transition: no panic, error iff the list-of-types model says so, error => snapshot unchanged, Schema.Types == model, well-formedness invariant, HasType/GetType agree with the list. A state is non-trivial when it holds at least one type", len(c14Ops())),
 		Assumptions: []string{"a relationship that is its own inverse is outside the domain (as stated)"},
 		Harnesses: []Harness{{
 			Name: "C14/edits",
